@@ -281,6 +281,7 @@ def lha_member(name, data, level=0, method=b"-lh0-", osid=b"U"):
 def lha_dir(name, level=1):
     nm = (name.rstrip("/") + "\xff").encode("latin-1")
     if level == 0:
+        nm = (name.rstrip("/") + "/").encode("latin-1")      # level 0 stores the path with a trailing separator
         body = b"-lhd-" + struct.pack("<II", 0, 0) + _dos_time() + bytes([0x20, 0]) + bytes([len(nm)]) + nm + \
             struct.pack("<H", 0)
         return bytes([len(body), sum(body) & 0xff]) + body
